@@ -349,7 +349,7 @@ def run_H(item, rec):
                 rec.refute(ctx, bool(bad), "cache answers the question asked",
                            lambda m, bad=list(bad), seqc=seqc: dict(case=dict(case0, seq=seqc), problems=bad[:4], signature=["C14H", optname, str(overwrite), disk, str(seqc), bad[0][:50]]))
 
-        out = symx.explore(harness, max_paths=(500 if tier == "quick" else 20000), deadline_s=(20 if tier == "quick" else 600))
+        out = symx.explore(harness, max_paths=(500 if tier == "quick" else 8000), deadline_s=(20 if tier == "quick" else 200))
         rec.add_explore(out)
         rec.sample(dict(part="H", case=case0, first=item["first"], K=K, paths=out.paths))
     finally:
